@@ -164,6 +164,30 @@ def cross_format_probe():
     return problems
 
 
+def excel_date_lengths():
+    """
+    The length guard under Format Excel for the cells a date cell of a workbook reads as ('YYYY-MM-DD 00:00:00', 19
+    characters): a date-only DateTime field ignores the midnight when it looks at the VALUE; the number of characters of the
+    cell is what the declared length is compared with, "whatever the type and rule would otherwise say".
+    """
+    from cutplace import data, errors, fields
+    excel = data.DataFormat("excel")
+    excel.validate()
+    problems = []
+    cell = "2020-02-29 00:00:00"
+    for length, inside in (("10", False), ("19", True), ("1...12", False), ("...10", False), ("19...", True), ("", True), ("...19", True)):
+        field = fields.DateTimeFieldFormat("day", False, length, "YYYY-MM-DD", excel)
+        try:
+            field.validated(cell)
+            accepted = True
+        except errors.FieldValueError:
+            accepted = False
+        if accepted != inside:
+            problems.append("DateTime field (format excel, length %r, rule YYYY-MM-DD), cell %r of %d characters: is %s" % (
+                length, cell, len(cell), "accepted" if accepted else "rejected"))
+    return problems
+
+
 def _job(vec):
     """All eight types against one behaviour; returns list of problems."""
     problems = []
@@ -259,6 +283,9 @@ def run(tier, report):
             else:
                 report.violations.append({"what": problem})
     reader_names_field(report)
+    for problem in excel_date_lengths():
+        report.replayed += 1
+        report.violation("c03", {"excel_date_length": problem}, None, None, problem)
     if not report.violations:
         for vec in vectors:
             if vec["outcome"] == ["reject", "length"] and not vec["undecided"]:
